@@ -346,6 +346,7 @@ def run_process(ctx, st):
     try:
         lines = list(p.formatted_traces(make_stream(data)))
     except Exception as e:      # noqa
+        __import__('vxlib.symx.core', fromlist=['x']).proxy_rejected(e)
         ctx.check('C14/process/no-error', False, '%s: %s' % (type(e).__name__, e)); ctx.reach(); return
     decl = Declared([(t, pp, n.decode()) for t, pp, n in threads])
     expected = []
